@@ -2,7 +2,8 @@
 //
 //	astfacts15 <repo root> <output Facts15.v>
 //
-// Reads the CURRENT source of the request-handling packages (cmd/cremengine/engine/api and internal/pkg/server/rest;
+// Reads the CURRENT source of the request-handling packages (cmd/cremengine/engine/api, internal/pkg/server/rest,
+// internal/pkg/server/admin and internal/pkg/server;
 // _test.go files and files under the `verif` build tag excluded) and regenerates coq/gen/Facts15.v:
 //
 //	Facts15.sites     : per function, how many syntactically UNAMBIGUOUS panic sites it contains, by kind
@@ -31,7 +32,7 @@ import (
 	"strings"
 )
 
-var scanned = []string{"cmd/cremengine/engine/api", "internal/pkg/server/rest"}
+var scanned = []string{"cmd/cremengine/engine/api", "internal/pkg/server/rest", "internal/pkg/server/admin", "internal/pkg/server"}
 
 // callee names counted as `pcall` (selector or plain identifier, whatever the receiver)
 var panickingCallees = map[string]string{
